@@ -32,6 +32,8 @@ func TestFindings(t *testing.T) {
 		{"D6-space-in-inline-box-not-hanging", c11In{Para: P(8, "normal", "left", tx("xy zabcd"), sp(Node{}, tx(" e fg")), sp(Node{}, tx(" h ijklm nopqrstuv ")), tx("wxyz a bcde")), Widths: []int{252}}},
 		{"D7-end-spacing-lost", c11In{Para: P(10, "normal", "left", sp(Node{MR: 10}, tx("lmnop q ")), tx("rst")), Widths: []int{70}}},
 		{"D9-end-spacing-breaks-too-early", c11In{Para: P(10, "normal", "left", tx("ab cd"), sp(Node{PR: 20}, tx(" ef "), sp(Node{}, tx("gh")))), Widths: []int{120}}},
+		{"D16-end-spacing-charged-to-wrong-fragment", c11In{Para: P(10, "normal", "left", sp(Node{BR: 50}, tx("ab cd ef"))), Widths: []int{90}}},
+		{"D12b-stale-preserved-break-flag-br", c11In{Para: P(10, "normal", "justify", tx("ijklm nopqrstu v "), sp(Node{}, tx("wxyz"), Node{K: KBr}, tx("a bcde f ")), tx("g h")), Widths: []int{110}}},
 		{"D10-last-line-justified", c11In{Para: P(10, "normal", "justify", tx("qrst uvwx yzab cdefgh ijklmnopq rstuvwx y ")), Widths: []int{95}}},
 		{"D11-opportunity-between-children-missed", c11In{Para: Para{F: 8, WS: "normal", Align: "left", LH: "1", Nodes: []Node{tx("def gh ij kl"), sp(Node{}, tx("mn "), Node{K: KIB, W: 12, H: 4, M: 1}, tx("o")), tx("p-qr s tu")}}, Widths: []int{144}}},
 		{"D12-stale-preserved-break-flag", c11In{Para: P(16, "pre-line", "justify", tx("hij kl\nm nop   "), sp(Node{}, tx("qrst\nuvw"))), Widths: []int{96}}},
